@@ -95,7 +95,7 @@ def check_oracle(ctx, case, src, res, key=None):
     def bad(msg, **kw):
         ctx.violation('oracle', '%s: %s' % (what, msg), dict(case, **kw), key=key)
         return False
-    if res.name != (case.get('name') or 'regions'):
+    if res.name != (case['name'] if case.get('name') is not None else 'regions'):
         return bad('regions(name=%r): result is named %r' % (case.get('name'), res.name))
     if tuple(res.shape) != tuple(src.shape) or tuple(res.dims) != tuple(src.dims) or dict(res.attrs) != dict(src.attrs):
         return bad('shape/dims/attrs changed: %r %r %r' % (res.shape, res.dims, dict(res.attrs)))
@@ -136,7 +136,7 @@ DIMS = [('lat', 'lon'), ('y', 'x'), ('x', 'y'), ('row', 'col')]
 KEY_WRAP = 'regions-labels-wrap-in-input-dtype'
 
 
-LAYOUTS = ['C', 'F', 'T', 'strided', 'readonly', 'nonnative']
+LAYOUTS = ['C', 'F', 'T', 'strided', 'readonly', 'nonnative', 'reversed']
 
 
 def apply_layout(a, layout):
@@ -150,6 +150,8 @@ def apply_layout(a, layout):
         view = base[1:2 * a.shape[0]:2, a.shape[1]:0:-1]
         view[...] = a
         return view
+    if layout == 'reversed':                # a[::-1, ::-1] view (negative strides on both axes)
+        return np.ascontiguousarray(a[::-1, ::-1])[::-1, ::-1]
     if layout == 'readonly':
         a = a.copy()
         a.setflags(write=False)
@@ -170,6 +172,10 @@ def build(case):
         coords = {}
     else:
         coords = {dy: np.linspace(5, 6, rows), dx: np.arange(cols) * 2.0}
+        if case.get('coordv') == 1:      # descending, far from the origin, huge spacing
+            coords = {dy: 5e6 - 1e6 * np.arange(rows), dx: -3e6 + 2.5e5 * np.arange(cols)}
+        elif case.get('coordv') == 2:    # negative / tiny spacing, different on the two axes
+            coords = {dy: -0.001 + 0.0001220703125 * np.arange(rows), dx: 179.5 - 0.25 * np.arange(cols)}
         if case.get('extra_coords', (rows * 7 + cols + int(case['n'])) % 3 == 0):
             # non-index coordinates a real raster often carries: scalar band / spatial_ref / time and a 2-D auxiliary coordinate
             coords.update({'band': 1, 'spatial_ref': 0, 'time': np.datetime64('2020-01-02'),
@@ -186,10 +192,60 @@ def label_capacity(dtype):
     return int(np.iinfo(dtype).max)
 
 
+def snapshot(da):
+    return (np.array(da.data, copy=True), {str(k): np.array(v.values, copy=True) for k, v in da.coords.items()},
+            dict(da.attrs), da.name, tuple(da.dims), da.dtype)
+
+
+def unchanged(da, snap):
+    data, coords, attrs, name, dims, dtype = snap
+    same = da.dtype == dtype and np.array_equal(np.asarray(da.data), data, equal_nan=(dtype.kind == 'f')) and \
+        dict(da.attrs) == attrs and da.name == name and tuple(da.dims) == dims and set(map(str, da.coords)) == set(coords)
+    return same and all(np.array_equal(np.asarray(da.coords[k].values), v) for k, v in coords.items())
+
+
+def same_partition(l1, l2):
+    """two label rasters describe the same regions (NaN at the same cells, labels in bijection)"""
+    f, g = {}, {}
+    for r1, r2 in zip(l1, l2):
+        for a, b in zip(r1, r2):
+            if isnan(a) or isnan(b):
+                if not (isnan(a) and isnan(b)):
+                    return False
+                continue
+            if f.setdefault(a, b) != b or g.setdefault(b, a) != a:
+                return False
+    return True
+
+
+def sequence_checks(ctx, zonal, case, src, res, snap, kw):
+    """call sequences: the input is untouched; the same call again gives the same raster; regions of the label raster
+    (a raster derived from an already-processed one) has exactly the same regions; a copy / astype / re-labelled-coordinate
+    derivative gives the same labels"""
+    n = case['n']
+    if not unchanged(src, snap):
+        ctx.violation('oracle', 'regions(neighborhood=%d) modified its input raster (data/coords/attrs/name)' % n, case)
+    if not zonal.regions(src, neighborhood=n, **kw).identical(res):
+        ctx.violation('oracle', 'regions(neighborhood=%d): the same call repeated gives a different raster' % n, case)
+    other = zonal.regions(src, neighborhood=12 - n, **kw)      # interleave the other neighbourhood, then ask again
+    again = zonal.regions(src, neighborhood=n, **kw)
+    if not again.identical(res) or tuple(other.shape) != tuple(res.shape):
+        ctx.violation('oracle', 'regions(neighborhood=%d) after a call with the other neighbourhood differs' % n, case)
+    lab = to_floats(res.data)
+    again2 = zonal.regions(res, neighborhood=n, **kw)
+    if not same_partition(lab, to_floats(again2.data)):
+        ctx.violation('oracle', 'regions(neighborhood=%d) of the label raster does not have the same regions' % n, case)
+    d = src.copy(deep=True).assign_coords({src.dims[0]: np.arange(src.shape[0]) * 3.0 + 1}) if src.shape[0] else src
+    d.attrs['res'] = (9.0, 9.0)
+    if not same_partition(lab, to_floats(zonal.regions(d, neighborhood=n).data)) or not unchanged(src, snap):
+        ctx.violation('oracle', 'regions(neighborhood=%d) of a copy with other coordinates/attrs gives other regions' % n, case)
+
+
 def run_case(ctx, zonal, case, oracle=True):
     src = build(case)
     try:
-        kw = {'name': case['name']} if case.get('name') else {}
+        kw = {'name': case['name']} if case.get('name') is not None else {}
+        snap = snapshot(src) if case.get('sequence') else None
         res = zonal.regions(src, neighborhood=case['n'], **kw)
     except Exception as e:
         if case.get('layout') == 'nonnative' and type(e).__name__ == 'TypingError':
@@ -198,6 +254,8 @@ def run_case(ctx, zonal, case, oracle=True):
         ctx.violation('oracle', 'regions raised %s: %s' % (type(e).__name__, str(e)[:200]), case)
         return None
     data = to_floats(src.data)
+    if case.get('sequence'):
+        sequence_checks(ctx, zonal, case, src, res, snap, kw)
     if oracle:
         key = None
         if src.dtype.kind in 'biu' and res.dtype == src.dtype:
@@ -455,7 +513,7 @@ def layout_dtype(ctx, layout, i, dts):
     (integer rasters of any width reach the kernel as int64)"""
     if not ctx.quick():
         return dts[i % len(dts)]
-    if layout == 'strided':
+    if layout in ('strided', 'reversed'):
         return 'float64'
     if layout == 'readonly':
         return ['int64', 'int32', 'uint8'][i % 3]
@@ -473,7 +531,7 @@ def gen_layouts(ctx, count):
     i = 0
     while i < count:
         for name, fn in makers:
-            for layout in (LAYOUTS[1:4] if ctx.quick() else LAYOUTS[1:5]) + ['C']:
+            for layout in (LAYOUTS[1:4] if ctx.quick() else LAYOUTS[1:5]) + ['C', 'reversed']:
                 i += 1
                 k = rng.choice([3, 4, 5, 6, 7, 9])
                 g = rng.choice(dihedral(fn(k)))
@@ -491,6 +549,38 @@ def gen_layouts(ctx, count):
             pn = 0.1 if dtype.startswith('float') else 0
             data = [[NAN if rng.random() < pn else float(rng.choice([0, 1, 1, 2])) for _ in range(cols)] for _ in range(rows)]
             yield 'layout/%s/random' % layout, dict(n=rng.choice([4, 8]), dtype=dtype, data=data, layout=layout)
+
+
+def gen_themes(ctx, reps):
+    """appended audit streams: ids beyond 2**31 (far apart, so that the closeness tolerance cannot join them), call sequences,
+    coordinates far from the origin / descending / tiny spacing, name='', a read-only raster, degenerate rasters"""
+    rng = ctx.rng
+    makers = [shape_U, shape_spiral, shape_comb, shape_checker, shape_S]
+    i = 0
+    for _ in range(reps):
+        for dtype, pool in (('int64', [2 ** 31 + 1, 2 ** 33, 2 ** 40, -2 ** 35, 7]), ('uint64', [2 ** 31 + 1, 2 ** 40, 2 ** 52, 3]),
+                            ('float64', [2.0 ** 31 + 1, 2.0 ** 40, -2.0 ** 35, 2.0 ** 52]), ('uint32', [2 ** 31 + 1, 2 ** 32 - 1, 5])):
+            for fn in makers[:3]:
+                i += 1
+                a, b = rng.sample(pool, 2)
+                g = rng.choice(dihedral(fn(rng.choice([3, 5, 6]))))
+                yield 'big-ids/%s' % dtype, dict(n=rng.choice([4, 8]), dtype=dtype, data=[[float(a if v == 0 else b) for v in row] for row in g],
+                                                 sequence=(i % 3 == 0), coordv=i % 3)
+        for fn in makers:
+            for n in (4, 8):
+                i += 1
+                g = rng.choice(dihedral(fn(rng.choice([4, 5, 7]))))
+                dtype = ['float64', 'int32', 'float32', 'uint8'][i % 4]
+                data = [[float(v) for v in row] for row in g]
+                if dtype.startswith('float') and i % 2:
+                    data[rng.randrange(len(data))][rng.randrange(len(data[0]))] = NAN
+                yield 'sequence', dict(n=n, dtype=dtype, data=data, sequence=True, coordv=i % 3, dims=i % len(DIMS),
+                                       name='' if i % 4 == 0 else None)
+        for data in ([[3.0]], [[NAN]], [[1.0, 1.0, 1.0, 1.0]], [[2.0], [2.0], [5.0]], [[0.0, 1.0], [1.0, 0.0]],
+                     [[NAN, NAN], [NAN, NAN]], [[4.0] * 5 for _ in range(5)], [[NAN, NAN, NAN], [NAN, 6.0, NAN], [NAN, NAN, NAN]]):
+            for n in (4, 8):
+                i += 1
+                yield 'degenerate', dict(n=n, dtype='float64', data=data, sequence=True, layout='readonly' if i % 2 else 'C')
 
 
 def gen_inf(ctx, count):
@@ -540,6 +630,7 @@ def run(ctx):
         run_cases(ctx, gen_dense8(ctx, 300), light=True)
         run_cases(ctx, gen_inf(ctx, 800))
         run_cases(ctx, gen_layouts(ctx, 240))
+        run_cases(ctx, gen_themes(ctx, 1))
     else:
         run_cases(ctx, gen_exhaustive(ctx, 9), light=True)
         run_cases(ctx, gen_exhaustive(ctx, 16, alphabet=(0.0, 1.0), shapes=[(3, 4), (4, 3), (4, 4), (2, 7), (7, 2)]), light=True)
@@ -550,6 +641,7 @@ def run(ctx):
         run_cases(ctx, gen_dense8(ctx, 6000), light=True)
         run_cases(ctx, gen_inf(ctx, 6000))
         run_cases(ctx, gen_layouts(ctx, 4000))
+        run_cases(ctx, gen_themes(ctx, 20))
     ctx.exhaustive = False
 
 
@@ -580,7 +672,7 @@ def replay_case(ctx, case):
     def unjson(v):
         return {'nan': NAN, 'inf': float('inf'), '-inf': float('-inf')}.get(v, v) if isinstance(v, str) else float(v)
     c = dict(n=case['n'], dtype=case['dtype'], data=[[unjson(v) for v in row] for row in case['data']])
-    for k in ('dims', 'nocoords', 'name', 'extra_coords', 'layout'):
+    for k in ('dims', 'nocoords', 'name', 'extra_coords', 'layout', 'coordv', 'sequence'):
         if k in case:
             c[k] = case[k]
     ctx.case(c)
